@@ -157,10 +157,13 @@ class AWSElastiCacheHashClient(HashClient):
 
         May useful on error handling during cluster scale down or scale up
         """
+        # ask the endpoint first: a failing lookup must leave the client as it was
+        nodes = self._get_nodes_list()
+
         old_clients = self.clients.copy()
         self.clients.clear()
 
-        for server in self._get_nodes_list():
+        for server in nodes:
             self.add_server(normalize_server_spec(server))
 
         for key, client in old_clients.items():
